@@ -9,8 +9,9 @@ as the Go type wraps `set.Set[Path]`.
 
 `Equivalent` is reflexive only on paths whose keys are known (an unknown key is
 not `Equals`-true to itself), so the rules are lawful on `GoodPath` — paths whose
-index keys are plain known numbers or strings, the only keys `IndexStep.Apply`
-accepts — and the refinement theorems (`Props/C19.lean`, `pathset_refines`) are
+index keys are known numbers or strings (marked or not: marks are dropped before
+the comparison is read), the only keys `IndexStep.Apply` finds a member with —
+and the refinement theorems (`Props/C19.lean`, `pathset_refines`) are
 about `goodRules : Rules GoodPath`, the same two functions on that subtype.
 
 Core Lean only: the driver links this file.
@@ -55,8 +56,9 @@ def equivSteps : Path → Path → Res Bool
   | .index a :: p, .index b :: q =>
     match Value.equals a b with
     | .ok eq =>
+      -- marks on keys play no part: `eq, _ := aStep.Key.Equals(bStep.Key).Unmark()`
+      let eq := eq.unmark
       if !eq.isKnown then .ok false
-      else if eq.isMarked then .panic "False() on a marked value"
       else if !eq.isTrue then .ok false
       else equivSteps p q
     | .err c => .err c
@@ -74,14 +76,14 @@ in `Rules` and is reported by the driver before the set is touched (`equivTotal`
 def pathRules : Rules Path :=
   { hash := hash, equiv := fun p q => match equiv p q with | .ok b => b | _ => false }
 
-/-- a key that `IndexStep.Apply` can use: a known, unmarked number or string -/
+/-- a key that `IndexStep.Apply` can use: a known number or string, possibly marked -/
 def primKey (k : Value) : Bool :=
-  match k.ty, k.v with
+  match k.ty, k.v.unmark1 with
   | .number, .n _ => true
   | .string, .s _ => true
   | _, _ => false
 
-/-- every index key of the path is a plain known number or string -/
+/-- every index key of the path is a known number or string (marks allowed) -/
 def keysOk : Path → Bool
   | [] => true
   | .getAttr _ :: p => keysOk p
@@ -89,7 +91,7 @@ def keysOk : Path → Bool
 
 abbrev GoodPath := { p : Path // keysOk p = true }
 
-/-- the same rules on paths with plain known keys -/
+/-- the same rules on paths with known number / string keys -/
 def goodRules : Rules GoodPath :=
   { hash := fun p => pathRules.hash p.1, equiv := fun p q => pathRules.equiv p.1 q.1 }
 
